@@ -68,12 +68,12 @@ static void sub_block() {
         std::vector<double> gx = allgather_vec(nlb ? &x[0](0) : nullptr, rp, 2);
         if (w.rank) continue;
         double kappa = kappa_spd(K);
-        // Richardson: differential convergence clause against a single-rank run of the same configuration (see c12_solve.cpp)
+        // Richardson: a single-rank run of the same configuration is attached to the failure detail (see c12_solve.cpp)
         bool ref_converges = true;
         if (sv == "richardson" && !budget) { if (w.size == 1) ref_converges = false; else { try { mpi::communicator self(MPI_COMM_SELF); size_t nn = K.n; auto st = std::tie(nn, K.ptr, K.col, K.val); auto Ab = adapter::block_matrix<BV>(st);
                 std::vector<BR> fr(nb), xr(nb); for (long i = 0; i < nb; ++i) for (int q = 0; q < 2; ++q) { fr[i](q) = F[2 * i + q]; xr[i](q) = 0; } BSolver ref(self, Ab, prm); size_t it; double rr; std::tie(it, rr) = ref(fr, xr); ref_converges = std::isfinite(rr) && rr < tol; }
               catch (const std::exception &) { ref_converges = false; } } vf::obs_sum(ref_converges ? "richardson_reference_converges" : "richardson_reference_diverges"); }
-        TruthSpec ts; ts.solver = sv; ts.maxiter = maxiter; ts.tol = tol; ts.kappa = kappa; ts.must_converge = !budget && ref_converges;
+        TruthSpec ts; ts.solver = sv; ts.maxiter = maxiter; ts.tol = tol; ts.kappa = kappa; ts.must_converge = !budget; if (sv == "richardson" && !budget) ts.note = w.size == 1 ? "this is the single-rank run" : (ref_converges ? "converges" : "does not converge either");
         if (same) check_truth(c, tag, K, F, gx, X0, o, ts);
         double s = co == "aggregation" ? (double)(1 / 1.5f) : 1.0;
         for (size_t l = 0; l < g_rec.lv.size(); ++l) { LevelRec &L = g_rec.lv[l]; std::string lt = co + ":block:level";
